@@ -824,11 +824,27 @@ theorem ov_order_independent (c : List (Bytes × Int)) (tags₁ tags₂ : List (
   · rw [keys_inj tags₁ hn x hx y hy hxy]
   · exact List.set_comm _ _ hxy
 
+/-- **Scratch independence.** OriginalHash is handed the receiver's long-living scratch buffer (left non-empty by
+    sharding.Shard → Key.XXHash with the MAPPED key, or by earlier events). Whatever it contains, the returned buffer and the
+    hash are those of the marshalled original tag values alone. -/
+theorem resolution_hash_ignores_scratch_prefix (H : Bytes → Nat) (scratch₁ scratch₂ : Bytes) (metric : Nat) (ov : List Bytes) :
+    originalHash H scratch₁ metric ov = originalHash H scratch₂ metric ov ∧
+    (originalHash H scratch₁ metric ov).2 = H (marshal metric ov) ∧ (originalHash H scratch₁ metric ov).1 = marshal metric ov := by
+  simp [originalHash, marshalAppend]
+
 /-- hence the marshalled bytes that are hashed (and so the hash, whatever function it is) agree between any two agents -/
 theorem resolution_hash_input_independent (metric : Nat) (c₁ c₂ : List (Bytes × Int)) (tags₁ tags₂ : List (Nat × Bytes))
     (hp : tags₁.Perm tags₂) (hn : (tags₁.map (·.1)).Nodup) (H : Bytes → Nat) :
     H (marshal metric (mapAll c₁ tags₁).ov) = H (marshal metric (mapAll c₂ tags₂).ov) := by
   rw [ov_cache_independent c₁ c₂ tags₁, ov_order_independent c₂ tags₁ tags₂ hp hn]
+
+/-- the resolution hash as Agent.ApplyMetric computes it (mapAllTags, then OriginalHash on the shared scratch) is the same for
+    any two agents: any mapping caches, any order of (distinctly named) tags, any leftover scratch content -/
+theorem resolution_hash_same_on_all_agents (metric : Nat) (c₁ c₂ : List (Bytes × Int)) (tags₁ tags₂ : List (Nat × Bytes))
+    (hp : tags₁.Perm tags₂) (hn : (tags₁.map (·.1)).Nodup) (H : Bytes → Nat) (scratch₁ scratch₂ : Bytes) :
+    (originalHash H scratch₁ metric (mapAll c₁ tags₁).ov).2 = (originalHash H scratch₂ metric (mapAll c₂ tags₂).ov).2 := by
+  rw [(resolution_hash_ignores_scratch_prefix H scratch₁ scratch₂ metric _).1,
+    ov_cache_independent c₁ c₂ tags₁, ov_order_independent c₂ tags₁ tags₂ hp hn]
 
 /-! ## Non-vacuity and sharpness witnesses
 
@@ -871,6 +887,9 @@ example : Pinned ∧ agentWindowMs = 1300 →
     (run (init 1000000 5 15) demo).acc = [20, 9, 8, 4, 0] ∧
     (run (init 1000000 5 15) demo).out.map (fun b => (b.time, b.items.map (·.id))) =
       [(999998, [4]), (1000003, [9, 8]), (1000393, [0]), (1000395, [])] := by decide
+
+-- the buggy variant "append after the caller's content, hash the whole buffer" is NOT prefix independent (for an injective-enough H)
+example : marshalAppend [1] 7 [] ≠ marshalAppend [] 7 [] := by decide
 
 -- the Key tags do depend on the mapping cache, OriginalTagValues do not (`ov_cache_independent` is not trivial)
 example : Pinned → (mapAll [([97], 5)] [(1, [97])]).tagsI ≠ (mapAll [] [(1, [97])]).tagsI := by decide
